@@ -117,6 +117,12 @@ VARIANTS = [
     V( 'peek-regardless-of-length', PARSER, "if 4 <= data[path+'..length'] <= 6:", "if data[path+'..length'] <= 6:", fires=[ 'G-PEEK' ] ),
     V( 'peek-pushed-back-in-order-taken', PARSER, "source.push( ext_siz )\n source.push( sts )\n source.push( pad )\n source.push( svc )", "source.push( svc )\n                source.push( pad )\n                source.push( sts )\n                source.push( ext_siz )", fires=[ 'G-PEEK' ] ),
     V( 'peek-guard-as-range', PARSER, "if 4 <= data[path+'..length'] <= 6:", "if data[path+'..length'] in ( 4, 5, 6 ):", silent=[ 'G-PEEK' ] ),
+    V( 'member-handler-logs-absent-service', DEVICE, "self, exc, enip_format( r ))\n r.pop( self.SV_COD_CTX, None )", "self, exc, r.service )\n                        r.pop( self.SV_COD_CTX, None )", fires=[ 'P-EACH' ] ),
+    V( 'member-handler-logs-service-by-get', DEVICE, "self, exc, enip_format( r ))\n r.pop( self.SV_COD_CTX, None )", "self, exc, r.get( 'service' ))\n                        r.pop( self.SV_COD_CTX, None )", silent=[ 'P-EACH' ] ),
+    V( 'forward-close-over-live-view', DEVICE, "for k in list( self.forwards.keys() ): # we'll be mutating the dict...", "for k in self.forwards.keys():", fires=[ 'W-ITERDEL' ] ),
+    V( 'forward-close-over-tuple-snapshot', DEVICE, "for k in list( self.forwards.keys() ): # we'll be mutating the dict...", "for k in tuple( self.forwards ):", silent=[ 'W-ITERDEL' ] ),
+    V( 'struct-read-complete-by-short-window', LOGIX, "completed = end == endactual and offremains+max_size >= len( input )", "completed		= end == endactual and len( trimmed ) < max_size", fires=[ 'F-STATUS' ] ),
+    V( 'struct-read-complete-by-window-end', LOGIX, "completed = end == endactual and offremains+max_size >= len( input )", "completed		= end == endactual and not input[offremains+max_size:]", silent=[ 'F-STATUS' ] ),
     V( 'each-member-reply-into-a-copy', DEVICE, "r.input = bytearray( Object.produce( r ))\n data.status = 0x00", "r	= dotdict( r, input=bytearray( Object.produce( r )))\n                data.status	= 0x00", fires=[ 'P-EACH' ] ),
     # ---- repairs BY BZ CA CB ( round 8 )
     V( 'once-rerun-not-barred', DEVICE, 'assert not entered, "request failed in its target Object"\n answerer.request( req, addr=addr )', "answerer.request( req, addr=addr )", fires=[ 'P-ONCE' ] ),
@@ -239,6 +245,8 @@ VARIANTS = [
     V( 'forwards-key-without-port', DEVICE, "unique = addr[0],addr[1],fo.O_T.connection_ID", "unique			= addr[0],fo.O_T.connection_ID", fires=[ 'K-FORWARDS' ] ),
     V( 'forwards-key-T_O', DEVICE, "unique = addr[0],addr[1],fo.O_T.connection_ID", "unique			= addr[0],addr[1],fo.T_O.connection_ID", fires=[ 'K-FORWARDS' ] ),
     # ---- framework shape rules
+    V( 'decide-only-on-true', AUTO, "target = self.state if truth else None", "target			= self.state if truth == True else None", fires=[ 'R-DECIDE' ] ),
+    V( 'decide-spelled-with-bool', AUTO, "target = self.state if truth else None", "target			= None if not bool( truth ) else self.state", silent=[ 'R-DECIDE' ] ),
     V( 'sent-pushback-fifo', AUTO, "item = self._back.pop() if self._back else next( self._iter )", "item = self._back.pop( 0 ) if self._back else next( self._iter )", fires=[ 'R-SENT' ] ),
     V( 'sent-pushback-after-iterator', AUTO, "result = self._back.pop() if self._back else next( self._iter )", "result = next( self._iter )", fires=[ 'R-SENT' ] ),
     V( 'sent-pushback-if-statement', AUTO, "item = self._back.pop() if self._back else next( self._iter )",
